@@ -18,7 +18,7 @@ import (
 func init() {
 	register("C03",
 		"that a reported instant is a root of the solar longitude, the 14.6-15.8 day spacing, strict increase, and the agreement of adjacent years' tables (all numeric in the ephemeris; R03.10 follows the filling of the table on a synthetic one, R03.9 the form of the delta-T interpolation).",
-		r03_1, r03_2, r03_3, r03_4, r03_5, r03_6, r03_7, r03_8, r08_8, r04_9, r08_6, r03_9, r03_10)
+		r03_1, r03_2, r03_3, r03_4, r03_5, r03_6, r03_7, r03_8, r08_8, r04_9, r08_6, r03_9, r03_10, r03_11)
 }
 
 // convertMap reads convertJieQi as a finite map alias -> name: the function is followed by the
